@@ -11,7 +11,7 @@ func init() {
 	register("C10", []string{"./src/..."}, checkC10, "darwin")
 }
 
-var envReaders = []string{"os.Getenv", "os.LookupEnv", "os.Environ", "os.ExpandEnv"}
+var envReaders = []string{"os.Getenv", "os.LookupEnv", "os.Environ", "os.ExpandEnv", "os/exec.LookPath"}
 
 // envConstructors: functions of package core that return a core.BuildEnv.
 func (p *Prog) envConstructors() []*ssa.Function {
@@ -171,6 +171,40 @@ func checkC10(p *Prog, r *Report) {
 	// (4) hashing
 	if rh, runtime := ruleHashAnchors(p, r, "E2.hashcover"); rh != nil {
 		p.runHashCover(r, "E2.hashcover", rh, map[ssa.Value]bool{runtime: false}, []mustHash{{"pass_env", []string{"core.BuildTarget.PassEnv", "<os.Getenv>"}}, {"env", []string{"core.BuildTarget.Env", "keys:core.BuildTarget.Env"}}})
+	}
+	// a rule's pass_env reaches the target unfiltered: the names on BuildTarget.PassEnv are what the rule hash covers,
+	// whatever the repository config passes as well (pass_unsafe_env values are deliberately in no hash)
+	if ct := p.Fn("parse/asp", "createTarget"); ct == nil {
+		r.unresolved("E5.passenv-carried-unfiltered", "asp.createTarget")
+	} else {
+		n, bad := 0, ""
+		eachInstr(ct, false, func(_ *ssa.Function, i ssa.Instruction) {
+			st, ok := i.(*ssa.Store)
+			if !ok || fieldKey(st.Addr) != "core.BuildTarget.PassEnv" {
+				return
+			}
+			n++
+			cell, ok := st.Val.(*ssa.Alloc)
+			if !ok {
+				bad = "the stored pointer is not the address of the list just converted"
+				return
+			}
+			for _, sv := range storesTo(cell) {
+				c, ok := sv.(*ssa.Call)
+				if !ok || c.Call.StaticCallee() == nil || c.Call.StaticCallee().Name() != "asStringList" {
+					if ok {
+						bad = calleeName(&c.Call)
+					} else {
+						bad = sv.String()
+					}
+				}
+			}
+		})
+		if n == 0 {
+			r.unresolved("E5.passenv-carried-unfiltered", "store to BuildTarget.PassEnv in createTarget")
+		} else {
+			r.check(bad == "", "E5.passenv-carried-unfiltered", "the rule's pass_env list is stored on the target as given", p.pos(ct.Pos()), fnName(ct), "target.PassEnv = &asStringList(pass_env) with nothing removed", "createTarget stores a filtered pass_env list ("+bad+"): a name the config also lists under passunsafeenv is then on no hashed list at all - not in the config hash (unsafe) and not in the rule hash (removed) - while the action still receives it, so changing its value rebuilds nothing")
+		}
 	}
 	// the environment given to the action and the rule hash read a target's pass_env variables the same way
 	{
